@@ -22,7 +22,10 @@ def tbytes(t: torch.Tensor) -> bytes:
     t = t.contiguous()
     if t.numel() == 0:
         return b""
-    return t.reshape(-1).view(torch.uint8).numpy().tobytes()
+    flat = t.reshape(-1)
+    if flat.stride(0) != 1:  # a one-element tensor keeps whatever stride it had and still counts as contiguous
+        flat = flat.clone(memory_format=torch.contiguous_format)
+    return flat.view(torch.uint8).numpy().tobytes()
 
 
 def is_q(t):
@@ -55,7 +58,8 @@ def tensor_digest(t) -> str:
     h = hashlib.sha256()
     if t is None:
         return "none"
-    if hasattr(t, "__tensor_flatten__") and type(t) is not torch.Tensor and not isinstance(t, torch.nn.Parameter):
+    if type(t) is not torch.Tensor and type(t) is not torch.nn.Parameter and hasattr(t, "__tensor_flatten__"):
+        # a wrapper subclass (also when it is flagged as a Parameter)
         leaves, meta = inner_items(t)
         h.update(type(t).__name__.encode())
         h.update(repr(sorted(meta.items())).encode())
@@ -65,11 +69,6 @@ def tensor_digest(t) -> str:
             h.update(repr((str(x.dtype), tuple(x.shape))).encode())
             h.update(tbytes(x))
     else:
-        if isinstance(t, torch.nn.Parameter):
-            d = t.data
-            if type(d) is not torch.Tensor and hasattr(d, "__tensor_flatten__"):
-                return tensor_digest(d)
-            t = d
         h.update(repr((str(t.dtype), tuple(t.shape))).encode())
         h.update(tbytes(t))
     return h.hexdigest()[:16]
@@ -353,6 +352,8 @@ def effective_input64(module, x, act_qtype, input_scale):
 
 
 def expected_scale_shape(shape, axis, group_size=None, numel=None):
+    """The scale shape quanto's own quantizers produce (used for grouped tensors, where the scale
+    lives in the grouped 2-D layout; for ungrouped ones see `scale_broadcasts`)."""
     nd = len(shape)
     if axis is None:
         return None
@@ -366,6 +367,20 @@ def expected_scale_shape(shape, axis, group_size=None, numel=None):
     if axis == 0:
         return (n // group_size, 1)
     return (1, n // group_size)
+
+
+def scale_broadcasts(shape, axis, sshape):
+    """C06's wording: the scale "broadcasts along the axis it declares" - right-aligned to `shape`,
+    every dim of the scale is 1 except (possibly) the declared axis, which holds one value per index
+    (or a single value, which broadcasts along any axis). Nothing more is demanded."""
+    nd = len(shape)
+    if len(sshape) > max(nd, 1):
+        return False
+    al = (1,) * (nd - len(sshape)) + tuple(sshape)
+    if nd == 0:
+        return all(d == 1 for d in al)
+    ax = 0 if axis == 0 else nd - 1
+    return all(d == 1 or (i == ax and d == shape[ax]) for i, d in enumerate(al))
 
 
 def qinvariant(q):
@@ -404,9 +419,8 @@ def qinvariant(q):
             if axis not in (0, -1):
                 issues.append(("axis", str(axis)))
             else:
-                want = expected_scale_shape(tuple(q.shape), axis)
-                if tuple(scale.shape) != want:
-                    issues.append(("scale_shape", f"axis {axis} scale {tuple(scale.shape)} want {want}"))
+                if not scale_broadcasts(tuple(q.shape), axis, tuple(scale.shape)):
+                    issues.append(("scale_shape", f"axis {axis} scale {tuple(scale.shape)} does not broadcast along it in {tuple(q.shape)}"))
         if scale.device != q.device:
             issues.append(("scale_device", str(scale.device)))
         if scale.dtype != q.dtype:
@@ -436,10 +450,16 @@ def qinvariant(q):
         if axis not in (0, -1):
             issues.append(("axis", str(axis)))
         else:
-            want = expected_scale_shape(tuple(q.shape), axis, q._group_size)
-            if tuple(scale.shape) != want:
+            if q._group_size is None:
+                ok_s = scale_broadcasts(tuple(q.shape), axis, tuple(scale.shape))
+                ok_z = scale_broadcasts(tuple(q.shape), axis, tuple(zp.shape))
+                want = "a shape broadcasting along the axis"
+            else:
+                want = expected_scale_shape(tuple(q.shape), axis, q._group_size)
+                ok_s, ok_z = tuple(scale.shape) == want, tuple(zp.shape) == want
+            if not ok_s:
                 issues.append(("scale_shape", f"axis {axis} gs {q._group_size} scale {tuple(scale.shape)} want {want}"))
-            if tuple(zp.shape) != want:
+            if not ok_z:
                 issues.append(("zeropoint_shape", f"{tuple(zp.shape)} want {want}"))
         if zp.dtype != torch.int8:
             issues.append(("zeropoint_dtype", str(zp.dtype)))
